@@ -147,6 +147,30 @@ def D7():
     return p.returncode == 0
 
 
+def D7b():
+    """a graph pickled WITH a warm neighbor cache, loaded in a fresh interpreter with caching on:
+    the first query is a cache hit there"""
+    def run():
+        a, b = Vertex(), Vertex()
+        DirectedEdge(a, b)
+        helpers.neighbors(a)
+        helpers.neighbors(b, helpers.DIR_SENS_BACKWARD)
+        return nrpickler.dumps([a, b])
+    data = _with_cache(run)
+    code = (
+        "import sys,pickle; sys.path.insert(0, %r)\n"
+        "from edgegraph.structure import Vertex\n"
+        "from edgegraph.traversal import helpers, breadthfirst\n"
+        "Vertex.NEIGHBOR_CACHING=True\n"
+        "a,b=pickle.loads(sys.stdin.buffer.read())\n"
+        "assert helpers.neighbors(a)==[b]\n"
+        "assert helpers.neighbors(b, helpers.DIR_SENS_BACKWARD)==[a]\n"
+        "assert breadthfirst.bft(None, a)==[a,b]\n"
+    ) % os.environ.get("EG_REPO", "/repo")
+    p = subprocess.run([sys.executable, "-c", code], input=data, capture_output=True)
+    return p.returncode == 0
+
+
 def D8():
     def run():
         a, b, c = Vertex(), Vertex(), Vertex()
@@ -311,7 +335,7 @@ def D15():
     return True
 
 
-ALL = [D1, D2, D3, D4, D5, D6, D7, D8, D9, D10, D11, D12, D13, D14, D15]
+ALL = [D1, D2, D3, D4, D5, D6, D7, D7b, D8, D9, D10, D11, D12, D13, D14, D15]
 
 if __name__ == "__main__":
     bad = 0
